@@ -447,7 +447,12 @@ func (s *Sim) opStaleWrite(side int) {
 	s.staleWrites++
 	var err error
 	var what string
-	switch r.Draw(4) {
+	switch r.Draw(5) {
+	case 4:
+		// funding manager: the funding transaction of a zero-conf channel
+		// that is already in use confirms
+		what = "MarkRealScid"
+		err = st.MarkRealScid(lnwire.NewShortChanIDFromInt(uint64(600000+r.Draw(100))<<40 | 1<<16))
 	case 0:
 		what = "MarkCloseConfirmationHeight"
 		err = st.MarkCloseConfirmationHeight(fn.Some(uint32(700000 + r.Draw(100))))
